@@ -1,6 +1,6 @@
 SPECIFICATION TSpec
 CONSTANTS
-  KeyByOpts = TRUE
+  KeyByOpts = FALSE
   Kinds = {"good", "noname", "badlabel", "badglyph", "compressed", "awami", "badsilf", "nocmap", "nogloc"}
   Srcs = {"ops", "file"}
   Texts = {0, 1, 2, 3, 4, 5, 6, 7}
